@@ -817,6 +817,9 @@ class Exec(Executor):
             for key in k.modifies:
                 if key in post.heap:
                     post.heap[key] = z3.Const(smt.fresh_name(f"H_{key}"), post.heap[key].sort())
+                else:
+                    # not read on this path yet: a later first read must not see the initial heap
+                    post.ghost["havocked_heaps"] = frozenset(post.ghost.get("havocked_heaps", frozenset())) | {key}
             post.heap_version += 1
         if isinstance(recv, UnderConstruction):
             # contract of a __post_init__: ``modifies`` names the fields it may re-bind
